@@ -4,9 +4,14 @@ import Props.C06
 #print axioms SpyneModel.Props.C06.emitted_valid
 #print axioms SpyneModel.Props.C06.enumeration_literals_legal
 #print axioms SpyneModel.Props.C06.generated_schema_denotes
+#print axioms SpyneModel.Props.C06.generated_schema_denotes_same_ns
 #print axioms SpyneModel.Props.C06.leaf_literal_valid
 #print axioms SpyneModel.Props.C06.lxml_soft_agree
 #print axioms SpyneModel.Props.C06.gen_compiles
+#print axioms SpyneModel.Props.C06.documents_and_imports
+#print axioms SpyneModel.Props.C06.no_dangling_qname
+#print axioms SpyneModel.Props.C06.gen_compiles_member_kinds
+#print axioms SpyneModel.Props.C06.member_kinds_conservative
 #print axioms SpyneModel.Props.C06.class_definitions_compile
 #print axioms SpyneModel.Props.C06.integer_restriction_legal
 #print axioms SpyneModel.Props.C06.string_restriction_legal
